@@ -108,6 +108,18 @@ def gen_history(r, max_steps=30, max_nodes=8, allow_insert=True, depth=0, metada
             lv = st.leaves()
             if lv:
                 h = r.choice(lv)
+                if r.random() < 0.3 and len(live) >= 3:
+                    # the node to be deleted first gets several links on ONE of its input ports (state-order links from
+                    # different nodes; with `mixed` also value links sharing the offset)
+                    srcs = r.sample([x for x in live if x != h], min(len(live) - 1, r.randint(2, 3)))
+                    for s_ in srcs:
+                        if mixed and r.random() < 0.4:
+                            hist.append(["add_link", s_, r.choice(OFFS), h, 0])
+                            st.links.append((s_, hist[-1][2], h, 0))
+                        else:
+                            hist.append(["add_order_link", s_, h])
+                            if (s_, -1, h, -1) not in st.links:
+                                st.links.append((s_, -1, h, -1))
                 hist.append(["delete_node", h])
                 st.delete(h)
         elif allow_insert and depth == 0 and len(live) < max_nodes:
